@@ -483,6 +483,16 @@ fn mixed_case(k1: usize, k2: usize, alloc: u8, viol: Option<(usize, i64, usize)>
                 for (p, q) in pv.iter() { cs.multiply((*p).into(), (*q).into()); }
                 Ok(())
             })?;
+        } else if alloc == 5 {
+            // a randomized phase WITHOUT second-phase multipliers: only a challenge-weighted linear constraint (the honest
+            // second-phase commitments are then the identity), preceded by an empty linear constraint
+            cs.constrain(LinearCombination::default());
+            let (a0, c0) = (av.first().cloned(), cv.first().cloned());
+            cs.specify_randomized_constraints(move |cs| {
+                let z = cs.challenge_scalar(b"z");
+                if let (Some(a0), Some(c0)) = (a0, c0) { cs.constrain((a0 - Fr::from(3u64)) * z + (c0 - c0)); }   // a_0 = 3
+                Ok(())
+            })?;
         } else if !pv.is_empty() {
             cs.specify_randomized_constraints(move |cs| { let _ = cs.challenge_scalar(b"z"); for (p, q) in pv.iter() { cs.multiply((*p).into(), (*q).into()); } Ok(()) })?;
         }
@@ -518,8 +528,8 @@ fn c01(replay: Option<(usize, usize, usize)>) -> (bool, String, String) {
             Ok(Ok(false)) => Some(format!("honest proof of a satisfied circuit rejected: k1={} first-phase gates, k2={} second-phase gates, allocate={}", k1, k2, al)),
             Ok(Ok(true)) => None } };
     if let Some((a, b, c)) = replay { return match run(a, b, c) { Some(m) => (true, format!("[{},{},{}]", a, b, c), m), None => (false, format!("[{},{},{}]", a, b, c), "ok".into()) }; }
-    for k1 in 0..=4 { for k2 in 0..=3 { for al in 0..=4 { if let Some(m) = run(k1, k2, al) { return (true, format!("[{},{},{}]", k1, k2, al), m); } } } }
-    (false, "null".into(), "honest proofs for k1 in 0..4 first-phase x k2 in 0..3 second-phase gates, multiply, allocate-pair, odd-allocate, interleaved-allocate and allocate-in-both-phases styles".into())
+    for k1 in 0..=4 { for k2 in 0..=3 { for al in 0..=5 { if let Some(m) = run(k1, k2, al) { return (true, format!("[{},{},{}]", k1, k2, al), m); } } } }
+    (false, "null".into(), "honest proofs for k1 in 0..4 first-phase x k2 in 0..3 second-phase gates, multiply, allocate-pair, odd-allocate, interleaved-allocate, allocate-in-both-phases and randomized-phase-without-multipliers (+ empty constraint) styles".into())
 }
 fn c02(replay: Option<(usize, usize, usize, usize, usize)>) -> (bool, String, String) {
     let run = |k1: usize, k2: usize, i: usize, sg: usize, j: usize| -> Option<String> {
